@@ -295,6 +295,10 @@ class Run:
         for d, n in extra_q:
             cmd += ["-Q", d, n]
         cmd.append(path)
+        # the limits passed by the callers are sized for an idle machine (x3-x10 of the measured time); a timeout is
+        # reported as a broken obligation, so on a loaded machine (other checks running in parallel) it would be a
+        # false alarm: scale generously -- the limit only has to stop a diverging evaluation
+        timeout = max(int(timeout * float(os.environ.get("VERIF_TIMEOUT_SCALE", "3"))), 900)
         rc, out, err = sh(cmd, timeout=timeout, cwd=self.build)
         return rc == 0, out, err
 
